@@ -245,7 +245,10 @@ impl FileSystem for FakeFileSystem {
     }
 
     fn glob(&self, pattern: &str) -> Result<Vec<PathBuf>, LoadError> {
-        let pattern = glob::Pattern::new(pattern)?;
+        // The stored paths are canonical, so `.` and `..` in the pattern must be resolved
+        // the same way, as a real file system would do.
+        let pattern = self.canonicalize_path(Path::new(pattern));
+        let pattern = glob::Pattern::new(&pattern.to_string_lossy())?;
         let mut paths: Vec<PathBuf> = self
             .0
             .keys()
